@@ -24,7 +24,7 @@ func C05_Jobs() []string {
 	var out []string
 	for _, j := range shapeJobs() {
 		_, tm, variant, d := split3(j)
-		if tm == "T5" || tm == "T6" {
+		if tm == "T5" || tm == "T6" || tm == "T7" {
 			continue // the relational twin check covers primitives' placements T1..T4
 		}
 		if variant == "stest" {
@@ -244,19 +244,12 @@ func C09_Jobs() []string {
 	var out []string
 	for _, j := range shapeJobs() {
 		_, t, _, d := split3(j)
-		if t == "T2" || t == "T4" || t == "T5" || t == "T6" {
+		if t == "T2" || t == "T4" || t == "T5" || t == "T6" || t == "T7" {
 			// quick: plain, catch, required+catch, all three; thorough: every decoration
 			if v.Tier() == 0 && d != "d0" && d != "d4" && d != "d5" && d != "d7" {
 				continue
 			}
 			out = append(out, j)
-		}
-	}
-	for _, m := range []string{"parse", "validate"} {
-		for _, d := range []string{"/d0", "/d5", "/d7"} {
-			if v.Tier() == 1 {
-				out = append(out, m+"/T7/three"+d)
-			}
 		}
 	}
 	out = append(out, "params-order", "input-key-order")
@@ -266,7 +259,7 @@ func C09_Covers() []string { return []string{"both-clean", "both-issues"} }
 
 func buildShape9(job string) *shape {
 	ms, tmpl, _, ds := split3(job)
-	if tmpl != "T7" {
+	if tmpl != "T7" || true {
 		return buildShape(job)
 	}
 	sh := &shape{mode: Parse}
